@@ -88,7 +88,8 @@ def parse_afm(path):
 
 def afm_names(g, n):
     out, seen = [], set()
-    pool = ["A", "B", "Car", "Engine", "GPS", "X1", "Y2z", "Wheel", "Root", "NOTx", "ANDy", "Or", "Iff", "Integer1", "To", "Abs"]
+    pool = ["A", "B", "Car", "Engine", "GPS", "X1", "Y2z", "Wheel", "Root", "NOTx", "ANDy", "Or", "Iff", "Integer1", "To", "Abs",
+            "Ab", "AB", "Gps", "CAR", "WHEEL"]
     while len(out) < n:
         base = g.rng.choice(pool)
         name = base if base not in seen else base + str(g.rng.randrange(10000))
